@@ -226,7 +226,7 @@ def o6(W, ob):
             terms, lo, hi = lin_view(d[0][0])
             kk = [k for k in terms if k.startswith('arg')]
             lr = [k for k in terms if 'last_recv_frame' in k]
-            mp = [k for k in terms if 'max_prediction' in k]
+            mp = [k for k in terms if 'max_prediction' in k and k not in lr]
             if len(kk) == 1 and len(lr) == 1 and len(terms) == len(kk) + len(lr) + len(mp):
                 s_ = terms[kk[0]]
                 # s*(k - L + a*MP) + c in [lo, hi]  -> need: k = L satisfies it for every MP >= 0
@@ -240,8 +240,7 @@ def o6(W, ob):
         ob.check(ok, 'on_input|prune-window', 'the prune keeps every frame >= last_recv_frame - k*max_prediction (k >= 0), so the '
                  'acknowledged frame stays available as the next decode reference',
                  'recv_inputs.retain predicate `%s` may drop the newest received frame' % desc, where(clo))
-        ups = dict((u['name'], i) for i, u in enumerate(clo.upvars))
-        ob.check('last_recv_frame' in ups or any('last_recv' in u for u in ups), 'on_input|prune-window-upvar',
+        ob.check(ok or 'last_recv_frame' in desc, 'on_input|prune-window-upvar',
                  'the prune bound is derived from the newest received frame', 'the prune bound does not use last_recv_frame', where(clo))
 
 
